@@ -165,3 +165,29 @@ def MOp.run (next : Nat) (o : MObj) : MOp → Nat × MObj
   | _ => (next + 2, { data := next, variables := next + 1 })
 
 end Store
+
+namespace Store
+
+/-! ### functions that build one sample set from several (`concatenate`) -/
+
+/-- `_iter_records` for one further input: a differing vartype goes through
+    `change_vartype(vartype, inplace=False)` = `self.copy()` then the in-place conversion `f` *of the copy*;
+    a differing label order through `new_record = samples.record.copy()`; otherwise the input's own record
+    is handed to `stack_arrays` (which copies it into the result) -/
+def coerceInput (st : St) (inp : Arr) (f : Rat → Rat) (vtDiffers orderDiffers : Bool) : St × Arr :=
+  let p1 : St × Arr := if vtDiffers then alloc st ((readAll st inp).map f) else (st, inp)
+  if orderDiffers then copyArr p1.1 p1.2 else p1
+
+def coerceAll (st : St) : List (Arr × (Rat → Rat) × Bool × Bool) → St × List Arr
+  | [] => (st, [])
+  | (a, f, v, o) :: t =>
+    let p := coerceInput st a f v o
+    let q := coerceAll p.1 t
+    (q.1, p.2 :: q.2)
+
+/-- `concatenate([first, *others])` on the records: coerce every further input, then `stack_arrays` -/
+def concatInputs (st : St) (first : Arr) (others : List (Arr × (Rat → Rat) × Bool × Bool)) : St × Arr :=
+  let q := coerceAll st others
+  alloc q.1 ((first :: q.2).flatMap (readAll q.1))
+
+end Store
